@@ -3,6 +3,7 @@ import ScrapliModel.Lemmas.Framed
 import ScrapliModel.Props.C08
 import ScrapliModel.Generated.BodiesResponse
 import ScrapliModel.Lemmas.BodiesResponse
+import ScrapliModel.Lemmas.GoSem
 /-!
 # C02 — NETCONF replies decode to exactly the payload, or are explicitly failed
 
@@ -423,5 +424,17 @@ theorem generated_record1dot1Chunks_eq (fuel : Nat) (raw r0 : Bytes)
 /-- the fuel hypothesis is satisfiable and the statement is not vacuous: one chunk `abc` -/
 example : Gen.Bodies.Response.record1dot1Chunks 40 [35, 51, 10, 97, 98, 99, 10, 35, 35] []
     = some (none, [97, 98, 99]) := by decide +kernel
+
+/-- the `range` loop of `util.ByteContainsAny` as translated from the current source is `containsAny`
+(the failure-marker test of `NetconfResponse.Record`), for every buffer and every marker list -/
+theorem generated_byteContainsAny_eq (b : Bytes) (l : List Bytes) :
+    Gen.Bodies.Response.byteContainsAny b l = containsAny l b := by
+  unfold Gen.Bodies.Response.byteContainsAny Go.forRange containsAny
+  rw [Go.forRangeFrom_find (fun ss => isInfix ss b) (fun _ => true)]
+  induction l with
+  | nil => simp
+  | cons a l ih =>
+    simp only [List.find?, List.any]
+    cases h : isInfix a b <;> simp [ih]
 
 end Scrapli.Netconf.C02
